@@ -1,6 +1,7 @@
 package wire
 
 import (
+	"bytes"
 	"fmt"
 	"testing"
 
@@ -16,8 +17,8 @@ import (
 )
 
 func TestC09Histories(t *testing.T) {
-	rec := evid.New(t, "C09", "state-machine histories of 20..700 operations on a message writer (streamwriter.Writer or the deprecated frame.Writer.WriteMessage): decoded messages, raw messages with an in-dialect id, and refused writes (nil, id outside the dialect, id>255 on v1) interleaved; the output is parsed by the reference: i-th emitted frame has seq i mod 256, configured ids, version marker, flags, reference checksum, v1 payload = base size; refused writes emit nothing and consume no sequence number; non-trivial = more than 256 emitted frames with >=2 message kinds, or a refused write between two accepted ones; distinct by hash of the emitted stream")
-	rec.Require("wraps-256", "refused-between-accepted", "v1", "v2", "signed", "streamwriter", "framewriter", "raw-in-dialect", "id>=65536")
+	rec := evid.New(t, "C09", "state-machine histories of 20..700 operations on a message writer (streamwriter.Writer, frame.Writer.WriteMessage, or the same through NewWriter / frame.ReadWriter / NewReadWriter): decoded messages, raw messages with an in-dialect id, and refused writes (nil, id outside the dialect, id>255 on v1) interleaved; the output is parsed by the reference: i-th emitted frame has seq i mod 256, configured ids, version marker, flags, reference checksum, v1 payload = base size; refused writes emit nothing and consume no sequence number; non-trivial = more than 256 emitted frames with >=2 message kinds, or a refused write between two accepted ones; distinct by hash of the emitted stream")
+	rec.Require("wraps-256", "refused-between-accepted", "v1", "v2", "signed", "streamwriter", "framewriter", "raw-in-dialect", "id>=65536", "other-writer-form", "raw-v2-payload-ending-in-zero")
 	dpool := pool(t)
 	evid.Check(t, rec, evid.N(2500, 8000), func(t *rapid.T) {
 		readBufSize = 512
@@ -31,10 +32,37 @@ func TestC09Histories(t *testing.T) {
 			key = &k
 		}
 		link := gen.Byte().Draw(t, "link")
-		useStream := rapid.Bool().Draw(t, "streamwriter")
+		wkind := rapid.SampledFrom([]string{"streamwriter", "streamwriter", "framewriter", "framewriter", "NewWriter", "frame.ReadWriter", "NewReadWriter"}).Draw(t, "writer_kind")
+		useStream := wkind == "streamwriter"
 		w := &recWriter{}
 		var write func(message.Message) error
-		if useStream {
+		fver := frame.V1
+		if v2 {
+			fver = frame.V2
+		}
+		switch {
+		case wkind == "NewWriter":
+			fw, err := frame.NewWriter(frame.WriterConf{Writer: w, DialectRW: di.rw, OutVersion: fver, OutSystemID: sys, OutComponentID: comp, OutSignatureLinkID: link, OutKey: keyOf(key)}) //nolint:staticcheck
+			if err != nil {
+				t.Fatalf("BROKEN: %v", err)
+			}
+			write = fw.WriteMessage
+		case wkind == "frame.ReadWriter":
+			rw := &frame.ReadWriter{ByteReadWriter: rwPair{bytes.NewReader(nil), w}, DialectRW: di.rw, OutVersion: fver, OutSystemID: sys, OutComponentID: comp, OutSignatureLinkID: link, OutKey: keyOf(key)}
+			if err := rw.Initialize(); err != nil {
+				t.Fatalf("BROKEN: %v", err)
+			}
+			write = rw.WriteMessage
+		case wkind == "NewReadWriter":
+			rw, err := frame.NewReadWriter(frame.ReadWriterConf{ReadWriter: rwPair{bytes.NewReader(nil), w}, DialectRW: di.rw, OutVersion: fver, OutSystemID: sys, OutComponentID: comp, OutSignatureLinkID: link, OutKey: keyOf(key)}) //nolint:staticcheck
+			if err != nil {
+				t.Fatalf("BROKEN: %v", err)
+			}
+			write = rw.WriteMessage
+		}
+		if write != nil {
+			// built above
+		} else if useStream {
 			fw := &frame.Writer{ByteWriter: w, DialectRW: di.rw}
 			if err := fw.Initialize(); err != nil {
 				t.Fatalf("BROKEN: %v", err)
@@ -68,7 +96,7 @@ func TestC09Histories(t *testing.T) {
 		}
 		emitted := 0
 		kinds := map[uint32]bool{}
-		refusedBetween, pendingRefused, rawUsed := false, false, false
+		refusedBetween, pendingRefused, rawUsed, rawZeroEnd := false, false, false, false
 		var expect []struct {
 			lay *ref.Layout
 			pay []byte
@@ -91,6 +119,16 @@ func TestC09Histories(t *testing.T) {
 				var err error
 				if op == "raw" {
 					rawUsed = true
+					// an already encoded message goes out as it was handed over: canonical, or (v2) with the zero
+					// bytes a sender is allowed to leave at the end
+					if v2 && rapid.Bool().Draw(t, "raw_untruncated") {
+						if full := lay.EncodeFull(val, true); len(full) <= 255 {
+							pay = full
+							if len(pay) > 1 && pay[len(pay)-1] == 0 {
+								rawZeroEnd = true
+							}
+						}
+					}
 					err = write(&message.MessageRaw{ID: id, Payload: append([]byte(nil), pay...)})
 				} else {
 					err = write(val.(message.Message))
@@ -220,10 +258,14 @@ func TestC09Histories(t *testing.T) {
 		if key != nil {
 			cls = append(cls, "signed")
 		}
-		if useStream {
-			cls = append(cls, "streamwriter")
-		} else {
-			cls = append(cls, "framewriter")
+		switch wkind {
+		case "streamwriter", "framewriter":
+			cls = append(cls, wkind)
+		default:
+			cls = append(cls, "other-writer-form")
+		}
+		if rawZeroEnd {
+			cls = append(cls, "raw-v2-payload-ending-in-zero")
 		}
 		if rawUsed {
 			cls = append(cls, "raw-in-dialect")
